@@ -265,8 +265,47 @@ def multi_cursor_layer(ctx, ncases):
             return
 
 
+def executemany_layer(ctx):
+    """executemany(statement, parameter sets) is execute for each set in turn: afterwards the cursor is in the state the
+    last execute leaves (rowcount, rownumber, description, the rows still to fetch); with no parameter set nothing changes"""
+    table = impl.HTable('r', [('x', int), ('y', str)], [(k, 'v%d' % k) for k in range(6)])
+    conn = impl.connection([table])
+    text = 'SELECT x, y FROM #r WHERE x < %s'
+    for plist in ([(3,), (2,), (1,)], [(0,), (5,)], [(4,)], [(2,), (0,)], [], [(6,), (6,), (6,)]):
+        for before in ((), ((3,),)):
+            a, b = conn.cursor(), conn.cursor()
+            for p in before:
+                a.execute(text, p)
+                b.execute(text, p)
+                a.fetchone()
+                b.fetchone()
+            def observe(cur):
+                out = ['ok' + state(cur)]
+                for f in (lambda: cur.fetchmany(2), cur.fetchall):
+                    try:
+                        out.append(show_out(f()) + state(cur))
+                    except Exception as exc:  # noqa: BLE001
+                        out.append('EXC:' + type(exc).__name__)
+                return '|'.join(out)
+            try:
+                a.executemany(text, plist)
+                got = observe(a)
+            except Exception as exc:  # noqa: BLE001
+                got = 'EXC:' + type(exc).__name__
+            for p in plist:
+                b.execute(text, p)
+            want = observe(b)
+            ctx.evaluations += 1
+            ctx.count('executemany')
+            ctx.nontrivial_hashes.add(hash(('executemany', repr(plist), before)))
+            if got != want:
+                ctx.record_violation('executemany-differs-from-repeated-execute', 'after %r, executemany(%r): %s, repeated execute: %s' % (
+                    before, plist, got[:300], want[:300]))
+
+
 def run(ctx):
     rng = ctx.rng
+    executemany_layer(ctx)
     multi_cursor_layer(ctx, 400 if ctx.thorough() else 80)
     maxlen = 4 if ctx.thorough() else 3
     # exhaustive short sequences: first op is execute or not
